@@ -62,12 +62,14 @@ pub struct Tokenized {
     pub elems: Vec<usize>,
     /// "end" | "bad" | "trunc"
     pub term: &'static str,
+    /// offset just after the non-tag byte, when the stream ends with one
+    pub bad_at: Option<usize>,
 }
 
 /// Independent tokenizer.  Delimiters are 0x01..0x05 (0x03 ends), value tags 0x10..0x4a,
 /// anything else is not a tag.
 pub fn tokenize(b: &[u8]) -> Tokenized {
-    let mut r = Tokenized { hdr: None, toks: vec![], end: None, elems: vec![], term: "trunc" };
+    let mut r = Tokenized { hdr: None, toks: vec![], end: None, elems: vec![], term: "trunc", bad_at: None };
     if b.len() < 8 {
         // a streaming parser reads 2, 2, 4
         let mut left = b.len();
@@ -142,6 +144,7 @@ pub fn tokenize(b: &[u8]) -> Tokenized {
             x => {
                 r.toks.push(Tok::Bad(x));
                 r.term = "bad";
+                r.bad_at = Some(i);
                 return r;
             }
         }
